@@ -1,11 +1,56 @@
 #!/bin/sh
-# build_fuzz.sh: builds the coverage-guided engine (tests/lcvfuzz.rs) with sancov instrumentation into harness/target-fuzz;
-# prints the path of the binary on the last line
-cd /verif/harness || exit 2
+# build_fuzz.sh: builds the coverage-guided engine (harness/tests/lcvfuzz.rs) with sancov instrumentation.
+#  - a package is generated under harness/target-fuzz/pkg from harness/Cargo.toml (same dependencies, same lock file);
+#  - proptest is replaced ([patch.crates-io]) by a copy of the cached source with ONE change: a fork of the pass-through RNG
+#    (used by prop_oneof / flat_map for their lazily generated alternatives) no longer halves the remaining byte window --
+#    the child reads on from the parent's position. Without it the window collapses after a few unions and the rest of the
+#    case would be generated from zeros (rand's rejection sampling then never terminates).
+# Prints the path of the binary on the last line (BUILD-FAILED otherwise). Nothing outside harness/target-fuzz is written.
+set -e
+V=${LCV_VERIF_SRC:-/verif}
+T=${LCV_FUZZ_TARGET_DIR:-/verif/harness/target-fuzz}
+PKG=$T/pkg
 export CARGO_NET_OFFLINE=true
-python3 /verif/tools/genroot.py >/dev/null
+python3 $V/tools/genroot.py >/dev/null
+mkdir -p $PKG/.cargo
+PT=$(ls -d /verif/.vendor/proptest-1.* | head -1)
+if [ ! -f $PKG/proptest/.patched ] ; then
+  rm -rf $PKG/proptest
+  cp -rL $PT $PKG/proptest
+  rm -f $PKG/proptest/.cargo-checksum.json
+  python3 - $PKG/proptest/src/test_runner/rng.rs <<'PY'
+import sys,re
+p=sys.argv[1]; s=open(p).read()
+old="""                let len = *end - *off;
+                let child_start = *off + len / 2;
+                let child_end = *off + len;
+                *end = child_start;
+"""
+new="""                // lcverif: the child shares the parent's window (see tools/build_fuzz.sh)
+                let child_start = (*off + 8).min(*end);
+                let child_end = *end;
+"""
+assert s.count(old)==1, "proptest source changed: PassThrough fork not found"
+open(p,'w').write(s.replace(old,new))
+PY
+  touch $PKG/proptest/.patched
+fi
+python3 - $V/harness/Cargo.toml $PKG/Cargo.toml $V <<'PY'
+import sys,re
+src,dst,v=sys.argv[1:4]
+s=open(src).read()
+# keep only the fuzz test target, with absolute paths
+s=re.sub(r'\[\[test\]\]\nname = "lcv"\npath = "tests/lcv.rs"\nharness = false\n','',s)
+s=s.replace('path = "tests/lcvfuzz.rs"','path = "%s/harness/tests/lcvfuzz.rs"'%v)
+s+='\n[patch.crates-io]\nproptest = { path = "proptest" }\n'
+import os
+if not os.path.exists(dst) or open(dst).read()!=s: open(dst,'w').write(s)
+PY
+[ -f $PKG/Cargo.lock ] || cp $V/harness/Cargo.lock $PKG/Cargo.lock
+cp $V/harness/.cargo/config.toml $PKG/.cargo/config.toml
+cd $PKG
 RUSTFLAGS="-Cpasses=sancov-module -Cllvm-args=-sanitizer-coverage-level=4 -Cllvm-args=-sanitizer-coverage-inline-8bit-counters -Cllvm-args=-sanitizer-coverage-pc-table -Cllvm-args=-sanitizer-coverage-trace-compares --cfg fuzzing" \
-CARGO_TARGET_DIR=${LCV_FUZZ_TARGET_DIR:-/verif/harness/target-fuzz} cargo build --profile verif --test lcvfuzz --features fuzz --target x86_64-unknown-linux-gnu --message-format=json-render-diagnostics 2>/tmp/build_fuzz.err \
+CARGO_TARGET_DIR=$T cargo build --profile verif --test lcvfuzz --features fuzz --target x86_64-unknown-linux-gnu --message-format=json-render-diagnostics 2>$T/build.err \
  | python3 -c "
 import sys,json
 exe=None
